@@ -84,6 +84,8 @@ def run_product(case):
         if "src_obs" not in out:
             out["src_obs"] = obs
             out["src_product"] = srcrun.dump_product(prod) if prod is not None else None
+            if prod is not None:
+                out["reread"] = reread(prod)
         out["calls"].append({"obs": {k: obs.get(k) for k in ("out", "exc", "msg")}, "product": view,
                              "inputs_same": annot.cit_snapshot(ents) == pre})
     # the same assembly without any citation or reference
@@ -96,6 +98,35 @@ def run_product(case):
     pobs, pprod = implutil.observe_assembly(pents[q], [pents[i] for i in case["order"]], id="prod", name="prod")
     out["plain"] = annot.product_view(pprod) if pprod is not None else {"out": pobs["out"]}
     return out
+
+
+def reread(prod):
+    """the product as an input of the next level: the library's own dereferencing of a copy of it must turn every
+    citation into the reference it points to"""
+    from harness import recutil
+    try:
+        from moclo.core._assembly import AssemblyManager
+        deref = AssemblyManager._deref_citations
+    except (ImportError, AttributeError):
+        return None
+    p2 = copy.deepcopy(prod)
+    refs = [recutil.ref_id(r) for r in p2.annotations.get("references", [])]
+    before = [list(f.qualifiers.get("citation", [])) for f in p2.features]
+    try:
+        deref(AssemblyManager.__new__(AssemblyManager), p2)
+    except TypeError:
+        return None        # another signature: not the method this clause knows
+    except Exception as e:  # noqa
+        return {"error": "%s: %s" % (type(e).__name__, e)}
+    bad = []
+    for f, b in zip(p2.features, before):
+        for c0, c in zip(b, f.qualifiers.get("citation", [])):
+            m = CIT_RX.match(c0) if isinstance(c0, str) else None
+            want = refs[int(m.group(1)) - 1] if m and 1 <= int(m.group(1)) <= len(refs) else None
+            got = recutil.ref_id(c) if not isinstance(c, str) else c
+            if want is None or got != want:
+                bad.append([c0, got, want])
+    return {"bad": bad[:3]} if bad else {}
 
 
 def oracle(case, res):
@@ -113,6 +144,10 @@ def oracle(case, res):
     if first["obs"]["out"] != "product":
         return {"signature": "C10:assembly-with-citations-fails",
                 "what": "records with citations do not assemble: %s %s" % (first["obs"]["exc"], first["obs"]["msg"])}
+    rr = res.get("reread")
+    if rr and (rr.get("error") or rr.get("bad")):
+        return {"signature": "C10:product-not-readable-at-next-level",
+                "what": "the library's own _deref_citations on a copy of the product: %s" % (rr.get("error") or rr.get("bad"))}
     for k, call in enumerate(res["calls"]):
         p = call["product"]
         if p is None:
